@@ -39,12 +39,19 @@ def compare(sc, runs, limit=None):
             cur = None
         elif cur is not None:
             cur.append(l)
-    res = dict(compared=0, mismatches=0, mismatch=None)
+    res = dict(compared=0, mismatches=0, mismatch=None, ranked_states=0, unranked_states=0, unranked_case=None)
     if p.returncode != 0 or len(outs) != len(runs):
         res["mismatch"] = dict(detail="cmodel produced %d cases for %d runs (exit %d): %s" % (len(outs), len(runs), p.returncode, p.stderr[-500:]))
         res["mismatches"] = 1
         return res
     for r, mo in zip(runs, outs):
+        for l in mo:
+            if l.startswith("# ranked "):
+                f = l.split()
+                res["ranked_states"] += int(f[2])
+                res["unranked_states"] += int(f[3])
+                if int(f[3]) and res["unranked_case"] is None:
+                    res["unranked_case"] = [l2 for l2 in r["case_lines"] if not l2.startswith("strategy") and l2 != "cend"] + ["strategy replay " + r["sched"], "cend"]
         io = norm(r["lines"])
         mo = norm(mo)
         res["compared"] += 1
